@@ -58,7 +58,7 @@ impl Property for C14 {
         }
     }
     fn rule(&self) -> &'static str {
-        "each case: a generated valid instance (one in six first passed through a random pipeline of SDK transformations) with 1-7 constraints spread over the active and removed lists (metadata, threshold-valued constraints; half of them with one-hot / SOS1 constraint hints naming active constraints) and a history of up to 8 (quick) / 24 (thorough) operations drawn from relax(id, reason, parameters) / restore(id) with ids from the active list, the removed list and unknown ids, interleaved with evaluate at one fixed in-bound state and evaluate_samples over three fixed states under four sample ids (per-sample flags equal those of evaluate and stay constant); relax reasons include the empty string. After every operation the instance is compared with an executable two-map model: same (id, function, equality, metadata) collection, each id in exactly one list, reason/parameters recorded, failing operations leave the instance equal; across the history the per-constraint values and `feasible` are constant and `feasible_relaxed` equals the conjunction over the model's active set. Non-trivial = history with >= 2 successful moves; distinct = fingerprint of (instance, history)."
+        "each case: a generated valid instance (one in six first passed through a random pipeline of SDK transformations) with 1-7 constraints spread over the active and removed lists (metadata, threshold-valued constraints; half of them with one-hot / SOS1 constraint hints naming active constraints) and a history of up to 8 (quick) / 24 (thorough) operations drawn from relax(id, reason, parameters) / restore(id) with ids from the active list, the removed list and unknown ids, interleaved with evaluate at one fixed in-bound state and evaluate_samples over three fixed states under four sample ids (per-sample flags equal those of evaluate and stay constant); relax reasons include the empty string; where a variable is used by exactly one constraint, a state lacking it is evaluated as well and must be accepted or rejected alike whichever list that constraint is in. After every operation the instance is compared with an executable two-map model: same (id, function, equality, metadata) collection, each id in exactly one list, reason/parameters recorded, failing operations leave the instance equal; across the history the per-constraint values and `feasible` are constant and `feasible_relaxed` equals the conjunction over the model's active set. Non-trivial = history with >= 2 successful moves; distinct = fingerprint of (instance, history)."
     }
     fn assumptions(&self) -> Vec<&'static str> {
         vec!["the order of constraints inside a list is not part of the property and is not compared", "feasibility is judged from the values the Solution itself reports (the values are checked by C05)"]
@@ -98,6 +98,36 @@ impl Property for C14 {
         let st2 = gen_state_in_bounds(rng, &inst, Some(&give), regime);
         let st3 = gen_state_in_bounds(rng, &inst, Some(&give), regime);
         let mut base_sample_flags: Option<BTreeMap<u64, bool>> = None;
+        // a state that lacks one variable which exactly one constraint (active or removed) uses: whether
+        // evaluation accepts it must not depend on the list that constraint is in at the moment
+        let mut st_incomplete: Option<v1::State> = None;
+        {
+            let mut users: BTreeMap<u64, usize> = BTreeMap::new();
+            let mut count = |f: &Option<v1::Function>| {
+                if let Some(f) = f {
+                    for id in crate::exact::nonzero_term_ids(f) {
+                        *users.entry(id).or_insert(0) += 1;
+                    }
+                }
+            };
+            count(&inst.objective);
+            count(&inst.objective); // a variable of the objective never qualifies
+            for c in inst.constraints.iter().chain(inst.removed_constraints.iter().filter_map(|r| r.constraint.as_ref())) {
+                count(&c.function);
+            }
+            for f in inst.decision_variable_dependency.values() {
+                count(&Some(f.clone()));
+                count(&Some(f.clone()));
+            }
+            let cand: Vec<u64> = users.iter().filter(|(id, n)| **n == 1 && st.entries.contains_key(id)).map(|(id, _)| *id).collect();
+            if !cand.is_empty() {
+                let mut s2 = st.clone();
+                s2.entries.remove(rng.pick(&cand));
+                st_incomplete = Some(s2);
+                mon.facet("state-lacking-a-variable-of-one-constraint");
+            }
+        }
+        let mut base_incomplete: Option<bool> = None;
         let max_len = match env.tier {
             Tier::Quick => 8,
             Tier::Thorough => 24,
@@ -252,6 +282,26 @@ impl Property for C14 {
                                 mon.violation("C14.feasible", format!("feasible={} but all constraints give {expect_all}\n{}", sol.feasible, ctx(&inst, &history)));
                             }
                             mon.facet(&format!("flags:{}/{:?}", sol.feasible, sol.feasible_relaxed));
+                        }
+                    }
+                    if let Some(si) = &st_incomplete {
+                        mon.eval();
+                        match probe(|| inst.evaluate(si).is_ok()) {
+                            Err(p) => {
+                                mon.violation(format!("C14.panic:{}", panic_site(&p)), format!("evaluate of an incomplete state panicked: {}\n{}", p.message, ctx(&inst, &history)));
+                                return;
+                            }
+                            Ok(accepted) => match base_incomplete {
+                                None => base_incomplete = Some(accepted),
+                                Some(b) => {
+                                    if b != accepted {
+                                        mon.violation(
+                                            "C14.incomplete-state-outcome-changed",
+                                            format!("a state lacking a variable that one constraint uses was {} at first and is {} now\nstate={:?}\n{}", if b { "accepted" } else { "rejected" }, if accepted { "accepted" } else { "rejected" }, sorted_state(si), ctx(&inst, &history)),
+                                        );
+                                    }
+                                }
+                            },
                         }
                     }
                     history.push((op, true));
